@@ -163,8 +163,8 @@ def check(P, R):
     det = 'the cookie is not  prefix + signature + separator + payload'
     if ok:
         p0, p1, p2, p3 = parts
-        c0 = _lit(p0)
-        c2 = _lit(p2)
+        c0 = _lit(p0, enc)
+        c2 = _lit(p2, enc)
         ehm = eh[0]
         emsg = ehm.args[1] if len(ehm.args) > 1 else None
         sig_ok = any(y is ehm for y in erd.closure_nodes(p1, rn))
@@ -182,6 +182,11 @@ def check(P, R):
         R.ob('C15.d', enc, r, ok3, text='signature is base64 text', detail='' if ok3 else 'signature is not base64-encoded like the reader expects')
     # reader framing: startswith('!') and '?' in data; split on '?'
     lits = {x.value for x in ast.walk(dec.node) if isinstance(x, ast.Constant) and isinstance(x.value, (str, bytes))}
+    for x in ast.walk(dec.node):
+        if isinstance(x, ast.Name) and isinstance(x.ctx, ast.Load) and not rd.is_local(x.id):
+            mv = T.module_value(dec, x)
+            if isinstance(mv, ast.Constant) and isinstance(mv.value, (str, bytes)):
+                lits.add(mv.value)
     lits = {v.decode() if isinstance(v, bytes) else v for v in lits}
     ok = '!' in lits and '?' in lits
     R.ob('C15.d', dec, dec.node, ok, text='reader framing bytes ! and ?', detail='' if ok else 'reader does not use the writer\'s framing bytes', nontrivial=False)
@@ -189,7 +194,9 @@ def check(P, R):
     check_get_cookie(P, R)
 
 
-def _lit(e):
+def _lit(e, f=None):
+    if f is not None:
+        e = T.module_value(f, e)
     if isinstance(e, ast.Constant):
         v = e.value
     elif isinstance(e, ast.Call) and dotted(e.func) == 'tob' and e.args and isinstance(e.args[0], ast.Constant):
@@ -265,16 +272,39 @@ def check_get_cookie(P, R):
         R.ob('C15.e', f, c, ok, text='secret forwarded', detail='' if ok else 'the secret of this call is not the one used for verification')
     # the signed branch is taken whenever a secret is given and the cookie exists - not only when the text "looks signed"
     for c in calls:
-        t = enclosing(c, ast.If)
+        cn = g.node_of_stmt(c)[0]
+        # the tests the call is control dependent on: each must be decided by the truthiness of the secret and of the raw cookie alone
+        ctl = [(tn, lab) for tn in g.nodes if tn.kind == 'test' for lab in ('true', 'false') if g.edge_dominates(tn, lab, cn)]
         ok, det = False, 'cookie_decode is not called under `if secret and value`'
-        if t is not None:
-            conj = bool_operands(t.test, ast.And)
-            names_ = [x.id for x in conj if isinstance(x, ast.Name)]
-            extra = [x for x in conj if not isinstance(x, ast.Name)]
-            ok = secret_p in names_ and not extra
-            det = '' if ok else (f'the signed branch is additionally conditioned on `{short(extra[0])}`: with a secret given, a cookie whose framing was damaged '
-                                 f'(leading "!" or "?" altered / truncated) falls through to the plain-cookie exit and is returned as text instead of reading as absent')
-        R.ob('C15.e', f, t.test if t is not None else c, ok, text='signed branch taken for every cookie when a secret is given', detail=det,
+        seen_secret = False
+        extra = []
+        for (tn, lab) in ctl:
+            def atom(e, tn=tn):
+                if isinstance(e, ast.Name):
+                    return True
+                return None
+            leaves = []
+
+            def collect(e):
+                if isinstance(e, ast.UnaryOp) and isinstance(e.op, ast.Not):
+                    collect(e.operand)
+                elif isinstance(e, ast.BoolOp):
+                    for v_ in e.values:
+                        collect(v_)
+                else:
+                    leaves.append(e)
+            collect(tn.ast)
+            seen_secret = seen_secret or any(isinstance(x, ast.Name) and x.id == secret_p for x in leaves)
+            extra += [x for x in leaves if not isinstance(x, ast.Name)]
+            tv = T.truth(tn.ast, atom)
+            if tv is not None and (('true' if tv else 'false') != lab):
+                extra.append(tn.ast)
+        if ctl:
+            ok = seen_secret and not extra
+            det = '' if ok else ((f'the signed branch is additionally conditioned on `{short(extra[0])}`: with a secret given, a cookie whose framing was damaged '
+                                  f'(leading "!" or "?" altered / truncated) falls through to the plain-cookie exit and is returned as text instead of reading as absent')
+                                 if extra else det)
+        R.ob('C15.e', f, ctl[0][0].ast if ctl else c, ok, text='signed branch taken for every cookie when a secret is given', detail=det,
              why='a signed cookie altered in any byte reads as absent', key_extra='branch-cond')
     # returns
     plain_rets = []
@@ -312,6 +342,41 @@ def check_get_cookie(P, R):
                 '(a memo or other indirection stands between): a second read with another secret or an altered cookie returns the old value'
                 if not direct else 'the decoded name is not compared with the requested name' if not namechk else
                 'a failed verification does not yield the default')
+        elif isinstance(v, ast.Subscript) and is_const(v.slice, 1) and isinstance(v.value, ast.Name):
+            # statement form: if dec and dec[0] == key: return dec[1] ... return default
+            decname = v.value.id
+            defs = rd.at(rn, decname)
+            direct = bool(defs) and all(d.kind == 'assign' and d.value in calls for d in defs)
+            guard = False
+            for tn in g.nodes:
+                if tn.kind != 'test':
+                    continue
+                def atom(e):
+                    if isinstance(e, ast.Name) and e.id == decname:
+                        return True
+                    cp_ = compare_parts(e)
+                    if cp_ and cp_[1] is ast.Eq and {src(cp_[0]), src(cp_[2])} == {f'{decname}[0]', key_p}:
+                        return True
+                    return None
+                conds = bool_operands(strip_not(tn.ast)[0], ast.And)
+                namechk = any(compare_parts(x) and compare_parts(x)[1] is ast.Eq and
+                              {src(compare_parts(x)[0]), src(compare_parts(x)[2])} == {f'{decname}[0]', key_p} for x in conds)
+                truthy = any(isinstance(x, ast.Name) and x.id == decname for x in conds)
+                tv = T.truth(tn.ast, atom)
+                if namechk and truthy and tv is not None and g.edge_dominates(tn, 'true' if tv else 'false', rn):
+                    guard = True
+            # what else can be returned once the decode ran: the default only
+            others = [m for m in g.nodes if m.kind == 'stmt' and isinstance(m.ast, ast.Return) and m is not rn
+                      and any(g.can_reach(g.node_of_stmt(c_)[0], m) for c_ in calls)]
+            dflt = bool(others) and all(isinstance(m.ast.value, ast.Name) and m.ast.value.id == default_p for m in others)
+            ok = guard and direct and dflt
+            det = '' if ok else (
+                'the value returned does not come straight from cookie_decode(<current text>, <current secret>) of this call'
+                if not direct else 'the decoded value is returned without `dec and dec[0] == <requested name>` holding' if not guard else
+                'a failed verification does not yield the default')
+        else:
+            R.undecided('C15.e', f, r, f'{short(r)}', 'no recogniser for how the decoded pair is returned')
+            continue
         R.ob('C15.e', f, r, ok, detail=det, why='a cookie signed with another secret / altered must read as absent')
     # set_cookie stores (name, value) through cookie_encode with the secret
     sc = P.func('ombott.response:BaseResponse.set_cookie')
